@@ -1,5 +1,5 @@
 (* C06 — A tree is reclaimed exactly once, when its last handle goes away.  Property theorems only. *)
-From CsModel Require Import Red RedProofs Conc ConcProofs.
+From CsModel Require Import Red RedProofs Conc ConcProofs ConcReclaim ConcTear.
 From Coq Require Import ZArith.
 Open Scope Z_scope.
 
@@ -27,3 +27,28 @@ Theorem C06_runs_are_reachable : forall g progs fuel s sched rr,
   Reach g progs s -> Reach g progs (fst (crun g fuel s sched rr)).
 Proof. exact crun_reach. Qed.
 Print Assumptions C06_runs_are_reachable.
+
+(* never twice, never what is not live: the freed blocks are pairwise different and none of them is
+   live; every live block is claimed exactly once — by the tree (the root), an initialised slot, a
+   candidate a thread is about to install, or a free a thread has queued *)
+Theorem C06_free_once : forall g progs s,
+  Reach g progs s ->
+  NoDup (c_freed s) /\ (forall b, In b (c_freed s) -> ~ In b (c_live s)) /\
+  NoDup (blocks s) /\ (forall b, In b (c_live s) <-> In b (blocks s)).
+Proof. exact free_once. Qed.
+Print Assumptions C06_free_once.
+
+(* never leaked: when every thread has finished its program and dropped its handles — whatever the
+   programs, the number of threads and the schedule — the teardown has run, no block is live, no
+   node slot and no node datum is left *)
+Theorem C06_no_leak : forall g progs s,
+  progs <> [] -> Reach g progs s -> all_done s = true ->
+  c_torn s = true /\ c_live s = [] /\ c_data s = [] /\ no_node_slot s.
+Proof. exact no_leak. Qed.
+Print Assumptions C06_no_leak.
+
+(* the count cannot reach zero by any step other than the drop of the last handle *)
+Theorem C06_count_positive : forall g progs s,
+  progs <> [] -> Reach g progs s -> c_torn s = false -> c_rc s >= 1.
+Proof. intros g progs s Hp R. exact (reach_RcPos g progs s Hp R). Qed.
+Print Assumptions C06_count_positive.
